@@ -4,9 +4,11 @@ import (
 	"bytes"
 	"encoding/json"
 	"fmt"
+	"math"
 	"math/big"
 	"math/rand"
 	"sort"
+	"time"
 
 	ethcrypto "github.com/ethereum/go-ethereum/crypto"
 	"github.com/holiman/uint256"
@@ -104,9 +106,14 @@ func u256(b *big.Int) *uint256.Int {
 	return v
 }
 
-// Sign signs tx with account acct for chain and returns the wire encoding.
+// Sign signs tx with account acct for chain and returns the wire encoding.  The creation time is a fixed function of
+// sender and nonce (reproducible bytes); SignAt signs with a given creation time.
 func (b *Builder) Sign(tx *rctypes.Trx, acct int, chain string) []byte {
-	tx.Time = BaseTime.UnixNano() + int64(tx.Nonce)*1000 + int64(acct)
+	return b.SignAt(tx, acct, chain, BaseTime.UnixNano()+int64(tx.Nonce)*1000+int64(acct))
+}
+
+func (b *Builder) SignAt(tx *rctypes.Trx, acct int, chain string, t int64) []byte {
+	tx.Time = t
 	if _, _, err := b.KR.Wallet(acct).SignTrxRLP(tx, chain); err != nil {
 		panic(err)
 	}
@@ -649,7 +656,18 @@ func (g *Gen) NextTx(v *View) *Op {
 		}
 		tag += ":addrlen"
 	}
+	at := int64(-1)
+	if g.Rng.Intn(12) == 0 {
+		// the creation time is a signed field no rule speaks about: any value, in particular times shortly before and
+		// after the moment of execution (replicas execute the same bytes at different moments of the wall clock)
+		now := time.Now()
+		at = []int64{0, 1, now.Add(-time.Hour).UnixNano(), now.Add(3 * time.Second).UnixNano(), now.Add(10300 * time.Millisecond).UnixNano(),
+			now.Add(10800 * time.Millisecond).UnixNano(), now.Add(12 * time.Second).UnixNano(), now.Add(time.Hour).UnixNano(), math.MaxInt64}[g.Rng.Intn(9)]
+	}
 	bz := g.B.Sign(tx, signer, chain)
+	if at >= 0 {
+		bz = g.B.SignAt(tx, signer, chain, at)
+	}
 	op := Op{Kind: "deliver", Tx: HexTx(bz), Auth: auth, Tag: tag}
 	g.pool = append(g.pool, op)
 	if len(g.pool) > 200 {
